@@ -319,6 +319,14 @@ class PartialV:
         self.key = "partial(%s)" % getattr(f, "key", "?")
 
 
+class OperatorV:
+    """operator.methodcaller(name, *args, **kwargs) / attrgetter(name) / itemgetter(key)."""
+
+    def __init__(self, kind, name, args=(), kwargs=None):
+        self.kind, self.name, self.args, self.kwargs = kind, name, list(args), dict(kwargs or {})
+        self.key = "operator.%s(%r)" % (kind, name)
+
+
 class ClassV:
     def __init__(self, ci):
         self.ci = ci
@@ -616,6 +624,13 @@ class Evaluator:
             return self.lib.call_ext(self, f.dotted, args, kwargs, node)
         if isinstance(f, BoundExt):
             return self.lib.call_method(self, f.recv, f.name, args, kwargs, node)
+        if isinstance(f, OperatorV) and len(args) == 1 and not kwargs:
+            if f.kind == "methodcaller":
+                return self.call(self.getattr(args[0], f.name, node), list(f.args), dict(f.kwargs), node)
+            if f.kind == "attrgetter" and isinstance(f.name, str) and "." not in f.name:
+                return self.getattr(args[0], f.name, node)
+            if f.kind == "itemgetter":
+                return self.lib.getitem(self, args[0], Const(f.name), node)
         if isinstance(f, PartialV):
             kw = dict(f.kwargs)
             kw.update(kwargs)
@@ -1271,10 +1286,35 @@ class Evaluator:
                             and self.local_array(fr, t.value.id):
                         continue   # a guarded element store into a local array: A[i] = ite(c, v, A[i])
                     return False
-                if not self.pure_expr(s.value):
+                if not self.pure_expr(s.value) and not self.pure_record_call(s.value, fr):
                     return False
             return True
         return simple(st.body) and simple(st.orelse)
+
+    def pure_record_call(self, e, fr):
+        """`name.method(<pure args>)` on a local immutable record (typing.NamedTuple) whose method is a single `return` of a value-only
+        expression (library calls, its own class's constructor, _replace): as mergeable as the expression it returns."""
+        if fr is None or not (isinstance(e, ast.Call) and isinstance(e.func, ast.Attribute) and isinstance(e.func.value, ast.Name)):
+            return False
+        obj = fr.vars.get(e.func.value.id)
+        if not (isinstance(obj, Obj) and getattr(obj, "nt_fields", None)):
+            return False
+        if not all(self.pure_expr(a) for a in list(e.args) + [k.value for k in e.keywords]):
+            return False
+        m = obj.cls.find_method(e.func.attr)
+        if m is None:
+            return e.func.attr == "_replace"
+        body = [s_ for s_ in m.node.body if not (isinstance(s_, ast.Expr) and isinstance(s_.value, ast.Constant))]
+        if len(body) != 1 or not isinstance(body[0], ast.Return) or body[0].value is None:
+            return False
+        for n in ast.walk(body[0].value):
+            if isinstance(n, ast.Call):
+                src = ast.unparse(n.func)
+                if src in (obj.cls.name, "type(self)", "self._replace", "self.__class__", "cls", "type"):
+                    continue
+                if not self.pure_expr(ast.Expr(value=ast.Call(func=n.func, args=[], keywords=[]))):
+                    return False
+        return not any(isinstance(n, (ast.Lambda, ast.ListComp, ast.GeneratorExp, ast.DictComp, ast.SetComp, ast.NamedExpr)) for n in ast.walk(body[0].value))
 
     def local_array(self, fr, name):
         """`name` is bound in the current frame to an array TERM that no view aliases (stores are then functional updates)."""
@@ -2027,7 +2067,7 @@ class Evaluator:
             if isinstance(a, Const) and isinstance(b, Const):
                 r = a.value is b.value or (a == b)
             elif isinstance(b, Const) and b.value is None:
-                if isinstance(a, (Obj, Lst, Dct, FuncV, ClassV, Tup, EnumM, Num, LambdaV, ExtV, BoundExt, ModV, PartialV)) or (isinstance(a, App)) :
+                if isinstance(a, (Obj, Lst, Dct, FuncV, ClassV, Tup, EnumM, Num, LambdaV, ExtV, BoundExt, ModV, PartialV, OperatorV)) or (isinstance(a, App)) :
                     r = False     # functions, classes, modules and library objects are not None
                 elif isinstance(a, Sym) and "notnone" in a.tags:
                     r = False
